@@ -107,6 +107,19 @@ def make_cases(tier):
         "edge-again-equal": [A.edge(v("P0"), v("P1")), A.attre(v("P0"), v("P1"), A.attr("w", i(1)))],
         "node-conflict-late": [A.node(v("c")), A.edge(v("c"), v("P0")), A.attrn(v("c"), A.attr("k", i(2))), A.attrn(v("P0"), A.attr("k", A.string("other")))],
     }
+    # a node with more outgoing edges than fit a small inline buffer: a later run names one of the late edges
+    many = [A.node(v("hub"))] + [A.node(v("s%d" % j)) for j in range(12)] + [A.edge(v("hub"), v("s%d" % j)) for j in (5, 0, 11, 3, 8, 1, 10, 2, 9, 4, 7, 6)] \
+        + [A.attre(v("hub"), v("s%d" % j), A.attr("w", i(j))) for j in (9, 0, 11, 4)]
+    for j, (tgt, val, want) in enumerate([(10, 9, "ok"), (10, 1, "err"), (12, 11, "ok"), (12, 3, "err"), (5, 4, "ok"), (9, 7, "ok")]):
+        for m1 in ("strict", "lazy"):
+            for m2 in ("strict", "lazy"):
+                r1 = A.case("c09m-%d-%s%s-r1" % (j, m1[0], m2[0]), A.file([A.stanza("(module) @_m ", json.loads(json.dumps(many)))]), 1, m1)
+                # (graph node 0 is the hub, node k + 1 is s<k>)
+                prog2 = A.file([A.stanza("(module) @_m ", [A.attre(v("P0"), v("P1"), A.attr("w", i(val)))])], globals_=[A.glob("P0"), A.glob("P1")])
+                r2 = A.case("c09m-%d-%s%s-r2" % (j, m1[0], m2[0]), prog2, 1, m2, globals_={"P0": A.vgn(0), "P1": A.vgn(tgt)})
+                r1["next"] = r2
+                r1["expect_later"] = want
+                cases.append(r1)
     k = 0
     for name, stmts in later.items():
         for m1 in ("strict", "lazy"):
